@@ -154,7 +154,7 @@ def run_config(c, cfg):
             fq = res.py_get_delay_queue()
             nqt = fq.py_get_next_queue_time()
             return dict(rows=impl.rows(res.py_get_result()), consumed=st.consumed, overrun=st.overrun,
-                        queue=e1._drain(fq, len(sp['reactions']), ncols), queue_next_time=nqt)
+                        queue=e1._drain(fq.py_copy(), len(sp['reactions']), ncols), queue_next_time=nqt)
         if route == 'ssa':
             return impl.run_ssa(us, times, dt=qdt)
         if route == 'volume':
@@ -167,7 +167,7 @@ def run_config(c, cfg):
             fq = res.py_get_delay_queue()
             nqt = fq.py_get_next_queue_time()
             return dict(rows=impl.rows(res.py_get_result()), consumed=st.consumed, overrun=st.overrun,
-                        queue=e1._drain(fq, len(sp['reactions']), ncols), queue_next_time=nqt)
+                        queue=e1._drain(fq.py_copy(), len(sp['reactions']), ncols), queue_next_time=nqt)
         return e1.run_delay(impl, us, times, qdt, ncols, dt=qdt, template=template)
 
     def on_trace(choices, menus, ref):
